@@ -185,6 +185,7 @@ type c07Case struct {
 	Blank   string
 	Cap     int
 	WithVal bool
+	Cut     int   `json:",omitempty"` // > 0: the block arrives in two calls, the first one ending after Cut bytes (own exact-size buffer)
 	NilMask uint8 `json:",omitempty"` // with WithVal: a caller-written PHBodies whose getters (bit order From, To, Call-ID, CSeq, CLen, Contacts, Expires, PAIs) return nil
 }
 
@@ -295,13 +296,22 @@ func evalC07(cs *c07Case) (vs []*Violation) {
 	var pv sipsp.PHdrVals
 	var n int
 	var e sipsp.ErrorHdr
+	var hb sipsp.PHBodies
 	if cs.WithVal && cs.NilMask != 0 {
-		n, e = sipsp.ParseHeaders(buf, 0, &hl, &maskedBodies{&pv, cs.NilMask})
+		hb = &maskedBodies{&pv, cs.NilMask}
 	} else if cs.WithVal {
-		n, e = sipsp.ParseHeaders(buf, 0, &hl, &pv)
-	} else {
-		n, e = sipsp.ParseHeaders(buf, 0, &hl, nil)
+		hb = &pv
 	}
+	po := 0
+	if cs.Cut > 0 && cs.Cut < len(block) {
+		b1 := append(make([]byte, 0, cs.Cut), buf[:cs.Cut]...)
+		n1, e1 := sipsp.ParseHeaders(b1, 0, &hl, hb)
+		if e1 != sipsp.ErrHdrMoreBytes {
+			return // premature verdicts on a prefix are C03's subject
+		}
+		po = n1
+	}
+	n, e = sipsp.ParseHeaders(buf, po, &hl, hb)
 	if e != 0 {
 		add("well-formed-accepted", errName(e), fmt.Sprintf("verdict %v at %d", e, n))
 		return
@@ -454,6 +464,24 @@ func checkC07(r *Run) {
 			r.Col.add(v)
 		}
 	}
+	// the same block delivered in two calls, for every position of the cut (what is reported is the same)
+	runCuts := func(c *enumCtx, cs *c07Case) {
+		n := 0
+		for _, l := range cs.Lines {
+			n += len(l.text())
+		}
+		n += len(cs.Blank)
+		for cut := 1; cut < n; cut++ {
+			cc := *cs
+			cc.Cut = cut
+			for _, v := range evalC07(&cc) {
+				r.Col.add(v)
+			}
+			c.st.Evals++
+			c.st.Transitions += 2
+			c.st.addExtra("two_call_deliveries", 1)
+		}
+	}
 	// 1-line blocks: full menu x blanks x caps x (hb nil; hb non-nil for generic names)
 	isGeneric := map[string]bool{}
 	for _, g := range generic {
@@ -472,6 +500,10 @@ func checkC07(r *Run) {
 				}
 				// a caller-written PHBodies that declines every body, or exactly the one of this header's type
 				runCase(c, &c07Case{Lines: []hdrLineSpec{a.l}, VF: []valForm{a.vf}, Blank: b, Cap: cp, WithVal: true, NilMask: 0xff})
+				if cp == 0 || cp == -1 {
+					runCuts(c, &c07Case{Lines: []hdrLineSpec{a.l}, VF: []valForm{a.vf}, Blank: b, Cap: cp})
+					runCuts(c, &c07Case{Lines: []hdrLineSpec{a.l}, VF: []valForm{a.vf}, Blank: b, Cap: cp, WithVal: true, NilMask: 0xff})
+				}
 				if bit := nilBitOf(sipsp.GetHdrType([]byte(a.l.Name))); bit != 0 {
 					runCase(c, &c07Case{Lines: []hdrLineSpec{a.l}, VF: []valForm{a.vf}, Blank: b, Cap: cp, WithVal: true, NilMask: bit})
 				}
@@ -492,6 +524,10 @@ func checkC07(r *Run) {
 					cp := caps(2)[(i+j)%6]
 					runCase(c, &c07Case{Lines: []hdrLineSpec{pair[0].l, pair[1].l}, VF: []valForm{pair[0].vf, pair[1].vf}, Blank: b, Cap: cp,
 						WithVal: isGeneric[pair[0].l.Name] && isGeneric[pair[1].l.Name] && j%2 == 0})
+					if (i+j)%5 == 0 {
+						runCuts(c, &c07Case{Lines: []hdrLineSpec{pair[0].l, pair[1].l}, VF: []valForm{pair[0].vf, pair[1].vf}, Blank: b, Cap: cp,
+							WithVal: isGeneric[pair[0].l.Name] && isGeneric[pair[1].l.Name] && j%2 == 0})
+					}
 					if (i+j)%2 == 0 {
 						mask := uint8(0xff)
 						if b1, b2 := nilBitOf(sipsp.GetHdrType([]byte(pair[0].l.Name))), nilBitOf(sipsp.GetHdrType([]byte(pair[1].l.Name))); (i+j)%4 == 0 && b1|b2 != 0 {
@@ -549,6 +585,7 @@ func checkC07(r *Run) {
 				}
 				cs.Cap = caps(len(ls))[(i+k)%6]
 				runCase(c, &cs)
+				runCuts(c, &cs)
 			}
 		}
 	})
